@@ -15,7 +15,7 @@ from cvise.cvise import CVise
 from cvise.passes.abstract import PassResult, ProcessEventNotifier
 
 OBLIGATIONS = ['Cvise.C11.analysis_sound', 'Cvise.C11.advance_paths_pure', 'Cvise.C11.advance_leaves_cursor_untouched',
-               'Cvise.C11.transform_deterministic', 'Cvise.C11.scratch_removed']
+               'Cvise.C11.transform_deterministic', 'Cvise.C11.scratch_removed', 'Cvise.C11.scratch_removed_on_every_path']
 
 STAND = VERIF / 'tools' / 'standins'
 EXT = {'unifdef': str(STAND / 'unifdef'), 'topformflat': str(STAND / 'topformflat'), 'clang_delta': str(STAND / 'clang_delta'),
@@ -35,8 +35,21 @@ def make(name, arg):
     return p
 
 
-def explore(ctx, name, arg, text, hist, d):
+ILL_TEXTS = [TOOL_TEXT.rsplit('#endif\n', 1)[0] + 'I5;\n', '#endif\n' + TOOL_TEXT, TOOL_TEXT + '#else\nI6;\n']     # unbalanced conditionals: the helper fails
+
+
+def explore(ctx, name, arg, text, hist, d, tool_fail=None):
     """drive one history; at every step check the value properties; returns signature or None"""
+    os.environ.pop('STANDIN_FAIL', None)
+    if tool_fail:
+        os.environ['STANDIN_FAIL'] = str(tool_fail)
+    try:
+        return explore1(ctx, name, arg, text, hist, d)
+    finally:
+        os.environ.pop('STANDIN_FAIL', None)
+
+
+def explore1(ctx, name, arg, text, hist, d):
     os.environ['CD_SCEN'] = str(d / 'cd.json')
     os.environ['CD_LOG'] = str(d / 'cd.log')
     (d / 'cd.json').write_text('{}')
@@ -115,6 +128,13 @@ def cases(ctx):
     for name, arg in TOOL_PASSES:
         for _ in range(4 if quick else 30):
             out.append((name, arg, TOOL_TEXT, [rng.random() < 0.5 for _ in range(rng.randint(1, 6))]))
+        if name in ('ifs', 'unifdef'):
+            for t in ILL_TEXTS:
+                out.append((name, arg, t, [rng.random() < 0.5 for _ in range(rng.randint(1, 4))]))
+        if name in ('ifs', 'unifdef', 'lines'):
+            # the helper program itself fails (exit 2 / exit 1): nothing may be left behind either
+            out.append((name, arg, TOOL_TEXT, [False, True, False], 2))
+            out.append((name, arg, TOOL_TEXT, [True, False], 1))
     return out
 
 
@@ -124,17 +144,18 @@ def run(ctx):
     if ctx.replay:
         o = json.load(open(ctx.replay))
         d = Path(tempfile.mkdtemp(prefix='c11-', dir=ctx.scratch))
-        sig, _ = explore(ctx, o['pass'], o['arg'], o['text'], o['hist'], d)
+        sig, _ = explore(ctx, o['pass'], o['arg'], o['text'], o['hist'], d, o.get('tool_fail'))
         print('replayed ->', sig or 'holds')
         if sig:
             ctx.report(sig, 'replayed', o)
         return 1 if ctx.violations else 0
     ctx.lean_gate(OBLIGATIONS)
     per = {}
-    for name, arg, text, hist in cases(ctx):
+    for name, arg, text, hist, *tf in cases(ctx):
+        tf = tf[0] if tf else None
         d = Path(tempfile.mkdtemp(prefix='c11-', dir=ctx.scratch))
         try:
-            sig, steps = explore(ctx, name, arg, text, hist, d)
+            sig, steps = explore(ctx, name, arg, text, hist, d, tf)
         except Exception as e:
             sig, steps = f'explorer-exception:{name}:{type(e).__name__}', 0
             ctx.notes.setdefault('exceptions', []).append(f'{name}::{arg}: {e}'[:200])
@@ -142,10 +163,10 @@ def run(ctx):
             shutil.rmtree(d, ignore_errors=True)
         ctx.count()
         per[f'{name}::{arg}'] = per.get(f'{name}::{arg}', 0) + steps
-        if steps >= 2:
+        if steps >= 2 or (tf and steps):
             ctx.nontrivial((name, arg, text, tuple(hist)))
         if sig and not sig.startswith('explorer-exception'):
-            ctx.report(sig, f'{name}::{arg} on {text[:60]!r} history {hist}', {'kind': 'explore', 'pass': name, 'arg': arg, 'text': text, 'hist': hist})
+            ctx.report(sig, f'{name}::{arg} on {text[:60]!r} history {hist}', {'kind': 'explore', 'pass': name, 'arg': arg, 'text': text, 'hist': hist, 'tool_fail': tf})
     ctx.sample({'pass': 'balanced::parens', 'steps_explored': per.get('balanced::parens')})
     ctx.sample({'tool passes explored with stand-ins': {f'{n}::{a}': per.get(f'{n}::{a}') for n, a in TOOL_PASSES}})
     conclude(ctx, [], None)
